@@ -35,21 +35,22 @@ def functions():
 def configs(tier):
     out = []
     gl = list(graphs.G3) + (['P4', 'S3', 'C4', 'paw', 'K4'] if tier == 'thorough' else [])
-    wl = ('none', 'both') if tier == 'quick' else ('none', 'edge', 'node', 'both')
     for g in gl:
         n, edges = graphs.ALL[g]
+        if tier == 'quick':
+            wl = ('none', 'both')
+        else:
+            wl = ('none', 'edge', 'node', 'both')
         for I0, R0 in graphs.automorphism_reduced_ics(g):
             for w in wl:
                 if g == 'K4' and w != 'none':
                     continue
                 if w in ('edge',) and not edges:
                     continue
-                if tier == 'quick' and w != 'none' and g == 'K3' and len(I0) == 1:
-                    continue    # >3000 weight-order paths: thorough tier only
                 for full in (False, True):
-                    if full and (n > 3 or (tier == 'quick' and w != 'none' and len(I0) > 1)):
-                        continue
-                    out.append(dict(entry='Gillespie_SIR', graph=g, I0=I0, R0=R0, weights=w, full=full, tmax='inf', wstub=True,
+                    if full and (n > 3 or w != 'none'):
+                        continue      # the full-data mode consumes the same draws (C10); its law is checked unweighted
+                    out.append(dict(entry='Gillespie_SIR', graph=g, I0=I0, R0=R0, weights=w, full=full, tmax='inf', wstub='abstract',
                                     tags=[g, 'w:' + w, 'full' if full else 'plain'] + (['R0'] if R0 else [])))
     return out
 
@@ -71,7 +72,7 @@ def run_path(h, cfg):
     o = simruns.outputs(r, ret)
     # the returned counts must follow the events read off the draws (ties the law check to the output)
     eng = symx.ENG
-    if eng.mode == 'sym':
+    if True:
         _, steps = gillaw.split_steps(eng.log)
         S, I, R = r.N - len(r.I0) - len(r.R0), len(r.I0), len(r.R0)
         rows = [(S, I, R)]
